@@ -47,7 +47,8 @@ def run_once(repo, force, exclude):
     text, report, theorems = extract_units.generate(repo, exclude)
     names = [t[0] for t in theorems]
     text += "\n" + "\n".join(f"#print axioms Rngs.ExtTie.{n}" for n in names) + "\n"
-    key = hashlib.sha256((text + dep_hash() + "v2").encode()).hexdigest()[:24]
+    skipped = json.dumps({u: r.get("skipped") or r.get("error") for u, r in report.items()}, sort_keys=True, default=str)
+    key = hashlib.sha256((text + dep_hash() + skipped + "v3").encode()).hexdigest()[:24]
     os.makedirs(CACHE, exist_ok=True)
     cpath = os.path.join(CACHE, key + ".json")
     lock = open(os.path.join(CACHE, ".lock"), "w")
